@@ -1,5 +1,5 @@
 CFG = {
-    "modules": ["Parsley.Props.C04", "Parsley.Props.C04Ctx", "Parsley.Props.C04E2E", "Parsley.Props.C04Hist"],
+    "modules": ["Parsley.Props.C04", "Parsley.Props.C04Ctx", "Parsley.Props.C04E2E", "Parsley.Props.C04Hist", "Parsley.Props.C04HistMix"],
     "theorems": [
         "Parsley.C04.prev_cycle_or_oob_rejected", "Parsley.C04.root_from_newest", "Parsley.C04.merge_is_newest_wins_partial",
         "Parsley.C04.infoOf_inFile",
@@ -24,6 +24,10 @@ CFG = {
         "Parsley.C04.exHist2_wf", "Parsley.C04.exHist3_wf",
         "Parsley.LoaderE2E.xrefLoop_secs", "Parsley.LoaderE2E.xrefinfo_secs", "Parsley.LoaderE2E.HistFile.xrefinfo_hist",
         "Parsley.LoaderE2E.load_hist_core", "Parsley.LoaderE2E.load_hist", "Parsley.LoaderE2E.load_hist_spec",
+        # ... and with classic tables and cross-reference streams in any mix
+        "Parsley.C04.newest_wins_history_mix", "Parsley.C04.newest_wins_history_mix_objs", "Parsley.C04.newest_wins_history_mix_spec",
+        "Parsley.C04.exMix_wf", "Parsley.LoaderE2E.xrefLoop_msecs", "Parsley.LoaderE2E.MixFile.xrefinfo_mix",
+        "Parsley.LoaderE2E.stage_merged_from", "Parsley.LoaderE2E.msec_reads", "Parsley.LoaderE2E.regAll_spec",
     ],
     "partial": {
         "merge_is_newest_wins_partial":
@@ -38,17 +42,20 @@ CFG = {
             "newest_wins_classic_chain_partial: for chains of classic tables the side conditions (empty context after the walk, no in-stream entry) are proved from the "
             "chain itself (ClassicAt at every visited offset); newest_wins_written_partial: and the premise ReadsAt is discharged for objects written in any legal "
             "spelling (C02.Spells via LoaderE2E.reads_spelled). Non-vacuity: evaluated on the two-revision file freeStable (fs_chain, fs_walk, fs_reads). "
-            "PROVED UNCONDITIONALLY (follow-up C03c; Props/C04Hist.lean: newest_wins_history, _objs, _spec; two-revision instance Props/C04E2E.lean: newest_wins_two_revisions): "
-            "for every file 'garbage, header, ANY number of revisions (each: objects, classic table, trailer in any spelling, then ARBITRARY bytes - e.g. that revision's own "
-            "startxref / %%EOF), startxref / %%EOF' that is well formed (HistFile.WF: lexical conditions, no /XRefStm, each table lists exactly its revision's objects at their "
-            "offsets and every number once, no /Prev in the base revision, every later /Prev = offset of the previous table, last startxref = newest table, /Root in the newest "
-            "trailer, stable generations across all tables; all offsets computed from the layout, none assumed) parse_data accepts, reports the newest root, and per object number "
-            "the NEWEST table that mentions it decides (in use: bound to the value written there, no other generation; free: undefined even if older revisions define it; "
-            "unmentioned: undefined); the final context equals DocSpec.resolve of what the revisions said (newest_wins_history_spec). No hypothesis about the walk remains "
-            "(xrefinfo_hist: get_xref_info = first-occurrence merge of all tables newest first, fuel sufficient, context untouched; getXrefInfo = ok, Chain, ClassicAt, StableGen X, "
-            "ReadsAt are all derived). Non-vacuity exHist2_wf (= exTwo: base 1=7, 2=8, 3=5; update redefines 1, frees 2), exHist3_wf (a second update re-creates 2). "
-            "STILL OPEN: cross-reference-stream / hybrid sections inside a history (single revisions of those kinds: C03 load_defines_exactly_xrefstream_all / _hybrid_all), "
-            "objects that load only in the second pass (forward /Length) in a history, the link renderHistory -> HistFile. "
+            "PROVED UNCONDITIONALLY (follow-up C03c; Props/C04HistMix.lean: newest_wins_history_mix, _objs, _spec; all-classic instance Props/C04Hist.lean: newest_wins_history; "
+            "two-revision instance Props/C04E2E.lean: newest_wins_two_revisions): for every file 'garbage, header, ANY number of revisions, each EITHER objects + classic table + "
+            "trailer (any spelling) OR objects one of which is a cross-reference stream object (any /W, /Index or none, rows plain / Flate stored / Flate + predictor), each "
+            "followed by ARBITRARY bytes (e.g. that revision's own startxref / %%EOF), then startxref / %%EOF' that is well formed (MixFile.WF: lexical conditions, no /XRefStm, "
+            "no /Encrypt in classic trailers, direct /Length and type-0/1 rows in stream sections, every number once per section, each section lists exactly its revision's "
+            "objects at their offsets incl. the stream object, no /Prev in the base, every later /Prev = offset of the previous section, last startxref = newest section, /Root in "
+            "the newest, stable generations across all sections, cross-reference stream objects not mentioned by newer sections; all offsets computed from the layout, none "
+            "assumed) parse_data accepts, reports the newest root, and per object number the NEWEST section that mentions it decides (in use: bound to the value written "
+            "there, no other generation; free: undefined even if older revisions define it; unmentioned: undefined); every cross-reference stream object is bound to its own "
+            "value; the final context equals DocSpec.resolve of what the revisions said (_spec). No hypothesis about the walk remains (xrefinfo_mix: get_xref_info = "
+            "first-occurrence merge of all sections newest first, fuel sufficient, context = exactly the stream objects; getXrefInfo = ok, Chain, ClassicAt, StableGen X, ReadsAt "
+            "are all derived). Non-vacuity exHist2_wf, exHist3_wf (three classic revisions, the last re-creates a freed object), exMix_wf (classic base + stream update with /Prev). "
+            "STILL OPEN: hybrid (/XRefStm) sections and /Encrypt in a history with stream sections, objects that load only in the second pass (forward /Length) in a history "
+            "(single revisions of all these kinds: C03 load_defines_exactly_xrefstream_all / _hybrid_all), the link renderHistory -> MixFile. "
             "EXCLUDED (real defects, known findings with witness theorems, not proof gaps): histories in which a number changes generation (#29) and object-stream "
             "members mentioned again later (#30; more generally any in-stream entry); also hybrid sections and objects that only load in the second pass. NOT proved: "
             "that a history rendered by DocSpec.renderHistory satisfies the hypotheses (getXrefInfo succeeds along the rendered chain) - C03's load_defines_exactly_classic "
@@ -66,7 +73,10 @@ CFG = {
             "layout (table / stream / hybrid in any mix), the root optionally moved to another live object; /Prev written 10 digits wide. 8 families by "
             "case index: 0-3 stable generations and untouched object-stream members; 4 generations may change (free with bump, re-use with next "
             "generation); 5 object-stream members may be redefined or freed later; 6 one /Prev aimed at its own section, a newer section (cycle) or "
-            "|file|+{0,1,1000} (must be rejected); 7 the newest /Prev skips revisions (the skipped ones must not count). Every 3rd history also with one "
+            "|file|+{0,1,1000} (must be rejected); 7 the newest /Prev skips revisions (the skipped ones must not count). Every 8th case index a `big` history: two revisions whose object numbers agree modulo 65536 (5 / 65541, 7 / 196615) or whose "
+            "generation exceeds 65535 (11 65536 next to 12 0, cross-reference-stream base) - the update adds the large ones / both in the base and the update redefines a small one / "
+            "large ones in the base and the update adds the small ones; every identifier must be its own object (catches a merge keyed by a truncated identifier). Every 16th a "
+            "one-revision `w0` file (cross-reference stream without a type field, plain or hybrid; see C03). Every 3rd history also with one "
             "corruption (correspondence and no panic). Oracle = DocSpec.resolve over the revisions on the chain. Classifiers decided on the case: "
             "'generation-changed' = some number is mentioned with two generations; 'objstm-member-touched-later' = a member number is mentioned by a later "
             "revision; anything else that disagrees is 'wrong-merge' and reported. non-trivial = history of >= 500 bytes or corpus case; distinct by hash",
@@ -90,9 +100,9 @@ LEVEL = {
             "generations exactly the newest entry per object number survives (freed numbers are not loaded, in-use ones are loaded from their newest "
             "offset). The two cases the code gets wrong are recorded as known findings with executable classifiers and witness theorems evaluated on "
             "concrete files: a free entry with the standard's generation bump leaves the object defined (#29), and an object-stream member redefined "
-            "later is bound to its OLD value while its stream neighbours are lost (#30). END-TO-END THEOREM newest_wins_history: for every well-formed history of ANY number "
-            "of classic-table revisions (declarative layout HistFile, all offsets computed from the layout, stable generations) parse_data accepts, reports the newest "
-            "root and the final context equals the oracle DocSpec.resolve of what the revisions said. Histories with stream / hybrid sections, changing generations and "
+            "later is bound to its OLD value while its stream neighbours are lost (#30). END-TO-END THEOREM newest_wins_history_mix: for every well-formed history of ANY number "
+            "of revisions encoded with classic tables or cross-reference streams in any mix (declarative layout MixFile, all offsets computed from the layout, stable generations) parse_data accepts, reports the newest "
+            "root and the final context equals the oracle DocSpec.resolve of what the revisions said. Histories with hybrid sections, changing generations and "
             "object streams are decided on the real code by the "
             "oracle over generated histories (add / redefine / free, mixed table and stream sections, all /Prev targets).",
 }
